@@ -7,7 +7,7 @@ SPEC = {
     "thorough_budget_s": 900,
     "chunk": 400,
     "rule": (
-        "one case = one seeded history on one Paragraph / Header / Span: constructed from a string (or empty) over an alphabet of letters, blank, runs of blanks, tab, newline, XML-special characters, accented, CJK and astral characters (white-space density is a per-run knob), then a seeded split of further text into append_plain_text / append calls, with restarts (serialize -> Element.from_tag) in between. After EVERY step: inner_text = the model string; an independent lxml reader projects the XML to text three ways - raw (no collapsing), as a consumer applying ODF white-space collapsing (blanks after text:s/tab/line-break kept), and under the strict reading that also drops trailing character-data blanks - each must equal the model string; odfdo's own serialize + from_tag route must give back the same text and the same class. The property's 'exhaustively up to a length bound' is NOT delivered: this is sampling. distinct = distinct run digest. non-trivial = >= 2 appends and >= 1 chunk containing white space."
+        "one case = one seeded history on one Paragraph / Header / Span: constructed from a string (or empty) over an alphabet of letters, blank, runs of blanks, tab, newline, XML-special characters, accented, CJK and astral characters, NBSP / NNBSP / ideographic space and the line-boundary characters U+2028 / U+2029 / U+0085 (white-space density is a per-run knob), then a seeded split of further text into append_plain_text / append calls, with restarts (serialize -> Element.from_tag) in between. After EVERY step: inner_text = the model string; an independent lxml reader projects the XML to text three ways - raw (no collapsing), as a consumer applying ODF white-space collapsing (blanks after text:s/tab/line-break kept), and under the strict reading that also drops trailing character-data blanks - each must equal the model string; odfdo's own serialize + from_tag route must give back the same text and the same class. The property's 'exhaustively up to a length bound' is NOT delivered: this is sampling. distinct = distinct run digest. non-trivial = >= 2 appends and >= 1 chunk containing white space."
     ),
     "assumptions": [
         "the ODF white-space interpreter (simkit/xmlref.py odf_text / raw_text) is trusted",
